@@ -4,6 +4,8 @@ harness at /verif HEAD; updates seeded/<id>/meta.json (field `final`). Scratch c
 import json, os, re, subprocess, sys, glob
 EXTRA = {"C01":["C03"],"C02":[],"C03":["C13"],"C04":["C11"],"C05":[],"C06":[],"C07":["C13"],"C08":["C19"],"C09":["C10"],"C10":["C09"],
          "C11":["C04"],"C12":["C17"],"C13":["C07"],"C14":[],"C15":[],"C16":["C03"],"C17":["C19"],"C18":[],"C19":[],"C20":[]}
+# changes that were aimed at one property but live on a clause another check owns
+SEED_EXTRA = {"C01-r4m1":["C06"], "C15-r4m1":["C01","C14"], "C08-r3m2":["C19"], "C17-r3m2":["C19"], "C03-r4m2":["C18"], "C14-r4m1":["C18"], "C09-r4m1":["C18"]}
 only = sys.argv[1:]
 env = dict(os.environ, RM=os.environ.get("RM","/var/tmp/repo-s2"), VM=os.environ.get("VM","/var/tmp/verif-s"), VERIF_E1_BUILD_TIMEOUT="600")
 head = subprocess.run(["git","-C","/verif","rev-parse","--short","HEAD"],capture_output=True,text=True).stdout.strip()
@@ -11,7 +13,8 @@ for d in sorted(glob.glob('/verif/seeded/*/')):
     name = os.path.basename(d.rstrip('/'))
     pid = name.split('-')[0]
     if only and not any(name.startswith(o) for o in only): continue
-    ids = [pid] + EXTRA.get(pid, [])
+    ids = [pid] + [x for x in EXTRA.get(pid, []) + SEED_EXTRA.get(name, []) if x != pid]
+    ids = list(dict.fromkeys(ids))
     out = subprocess.run(["/verif/tools/mutant.sh", d+"patch.diff"] + ids, capture_output=True, text=True, env=env).stdout
     checks = {}; cur=None; first_replay=None
     for l in out.splitlines():
